@@ -100,6 +100,9 @@ def check_case(res, spec, fit, ignore_four, exprs, label):
             got = (M[r, k], M[r + 1, k])
             q = p if end == 0 else p[::-1]
             d = (pos[q[1]][0] - pos[q[0]][0], pos[q[1]][1] - pos[q[0]][1])
+            if len(p) == 2:
+                # two points define a line: its tangent is the segment direction
+                t = [d[0] / math.hypot(*d), d[1] / math.hypot(*d)]
             straight = spec["meta"].get("mobius") is None
             tol = 1e-12 if len(p) == 2 else (5e-3 if straight else 1e-4)
             err = max(abs(got[0] - t[0]), abs(got[1] - t[1]))
@@ -165,6 +168,10 @@ def check_case(res, spec, fit, ignore_four, exprs, label):
 
 
 def tissues(rng, tier):
+    # exact lattices whose tangents have exactly vanishing / exactly cancelling components: always included
+    for kind in ("square", "brick"):
+        for diamond in (False, True):
+            yield gen.lattice_tissue(4, 4, kind, npts=0, diamond=diamond), f"exact-{kind}{'-diamond' if diamond else ''}"
     n = 8 if tier == "quick" else 150
     for k in range(n):
         kind = k % 6
@@ -174,8 +181,9 @@ def tissues(rng, tier):
         elif kind == 1:
             spec = gen.voronoi_tissue(rng, n=int(rng.integers(12, 40)), npts=int(rng.integers(1, 16)), mob_strength=float(rng.uniform(0.3, 1.5)))
         elif kind == 2:
-            spec = gen.lattice_tissue(int(rng.integers(3, 6)), int(rng.integers(3, 6)), ["square", "brick"][(k // 6) % 2], npts=int(rng.integers(0, 3)))
-            if rng.random() < 0.5:
+            spec = gen.lattice_tissue(int(rng.integers(3, 6)), int(rng.integers(3, 6)), ["square", "brick"][(k // 6) % 2], npts=int(rng.integers(0, 3)),
+                                      diamond=bool((k // 12) % 2 == 0 and rng.random() < 0.7))
+            if rng.random() < 0.3:
                 theta = float(rng.choice([0.0, math.pi / 2, 1e-3, -2e-4, math.pi / 2 + 5e-4]))
         elif kind == 3:
             spec = gen.voronoi_tissue(rng, n=int(rng.integers(12, 30)), npts_range=(0, 15), npts=0, mob_strength=float(rng.uniform(0.3, 1.0)))
